@@ -1,5 +1,6 @@
 import PnVerif.Lemmas.MergeLemmas
 import PnVerif.Lemmas.ReqQueueFixed
+import PnVerif.Lemmas.FlattenLemmas
 /-
   C02 — nonblocking request aggregation is equivalent to blocking execution.
 
@@ -537,6 +538,68 @@ theorem record_split_tiles (tag : Nat) (nelems xoff xsz : Int) (k : Nat) (i : Na
     rw [this, Int.add_mul]
     omega
 
+/-! ## Part 3: vars_flatten and the buffer type of mgetput (Model/Flatten.lean) -/
+open PnVerif.Access PnVerif.Flatten
+
+/-- `varsFlatten_offsets`: for every array shape, element size, start/count/stride (any number of
+    dimensions ≥ 1, all counts ≥ 1 — vars_flatten returns no segment otherwise) the (offset, length)
+    list emitted by vars_flatten expands to exactly the file offsets of the request's elements, in
+    row-major request order (`elemOff` = the format's element address on the array that starts at
+    `offset`; merge_requests passes the record's start for record variables). -/
+theorem varsFlatten_offsets (el offset : Nat) (dimlen s c k : List Nat)
+    (h1 : s.length = c.length) (h2 : s.length = k.length) (h3 : s.length = dimlen.length)
+    (hne : s ≠ []) (hel : 0 < el) (hpos : ∀ x ∈ c, 0 < x) :
+    expandBlocks el (varsFlattenOffs el offset dimlen s c k).1 (varsFlattenOffs el offset dimlen s c k).2
+      = (enumIdx s c k).map (elemOff { begin := offset, xsz := el, shape := dimlen, isRec := false, recsize := 0 }) := by
+  have hcne : c ≠ [] := by
+    intro hc; rw [hc] at h1; exact hne (List.length_eq_zero_iff.mp h1)
+  rw [varsFlattenOffs_eq el offset dimlen s c k hpos hcne]
+  simp only
+  rw [expandBlocks_shift]
+  exact PnVerif.Props.C01.strideFlatten_offsets
+    { begin := offset, xsz := el, shape := dimlen, isRec := false, recsize := 0 } s c k h1 h2 h3 hne hel
+    (by intro h; exact absurd h (by simp))
+
+/-- the segments carry the common length and consecutive buffer addresses: segment i reads/writes
+    buffer bytes [buf_addr + i*seg_len, buf_addr + (i+1)*seg_len), offsets as in `varsFlatten_offsets` -/
+theorem varsFlatten_segs (el offset : Nat) (dimlen : List Nat) (bufAddr : Int) (s c k : List Nat)
+    (hd : dimlen.length ≠ 0) :
+    let r := varsFlattenOffs el offset dimlen s c k
+    (varsFlatten el offset dimlen bufAddr s c k).map (fun g => g.off) = r.1.map (fun (o : Nat) => (o : Int)) ∧
+    ∀ (i : Nat) (g : Merge.Seg), (varsFlatten el offset dimlen bufAddr s c k)[i]? = some g →
+      g.len = (r.2 : Int) ∧ g.buf = bufAddr + (i : Int) * (r.2 : Int) := by
+  intro r
+  unfold varsFlatten
+  simp only [hd, if_false]
+  constructor
+  · apply List.ext_getElem?
+    intro i
+    simp only [List.getElem?_mapIdx, List.getElem?_map, Option.map_map]
+    cases (varsFlattenOffs el offset dimlen s c k).1[i]? <;> rfl
+  · intro i g hg
+    rw [List.getElem?_mapIdx] at hg
+    cases ho : (varsFlattenOffs el offset dimlen s c k).1[i]? with
+    | none => rw [ho] at hg; simp at hg
+    | some o =>
+      rw [ho] at hg
+      simp only [Option.map_some, Option.some.injEq] at hg
+      rw [← hg]; exact ⟨rfl, rfl⟩
+
+/-- non-vacuity (kernel-evaluated): a 3x5 array of 4-byte elements at offset 100, rows 0 and 2,
+    columns 1 and 3: four single-element segments, buffer addresses 0,4,8,12 -/
+example : varsFlatten 4 100 [3, 5] 0 [0, 1] [2, 2] [2, 2] = [⟨104, 4, 0⟩, ⟨112, 4, 4⟩, ⟨144, 4, 8⟩, ⟨152, 4, 12⟩] := by decide
+
+/-- `bufBlocks_cover`: the memory-side coalescing of mgetput (runs of requests whose I/O buffers are
+    adjacent become one block of the hindexed buffer type) covers exactly the bytes of the requests'
+    buffers, in request order — for every list of requests with non-negative sizes, whether or not
+    the NC_MAX_INT guard stops a fusion. -/
+theorem bufBlocks_cover (reqs : List (Int × Int)) (hp : ∀ r ∈ reqs, 0 ≤ r.2) :
+    (bufBlocks reqs).flatMap (fun p => Merge.span ((reqs.head?.map (fun r => r.1)).getD 0 + p.1) p.2)
+      = reqs.flatMap (fun r => Merge.span r.1 r.2) :=
+  bufBlocks_bytes reqs hp
+
+example : bufBlocks [(1000, 8), (1008, 4), (2000, 4), (1012, 4), (1016, 4)] = [(0, 12), (1000, 4), (12, 8)] := by decide
+
 def obligations : List String := [
   "merge_spec", "sort_spec", "coalesce_preserves_map", "merge_disjoint_identity", "aggregate_disjoint",
   "read_fills_all_counterexample", "read_fills_all_partial",
@@ -544,6 +607,7 @@ def obligations : List String := [
   "refused_wait_harmless_counterexample", "refused_wait_harmless_fixed",
   "wait_exact_partial", "wait_exact_counterexample", "status_by_id_counterexample", "wait_exact_all_fixed", "wait_all_spec",
   "cancel_spec", "post_spec",
-  "numrecs_counterexample", "numrecs_partial", "numrecs_fixed", "record_split", "record_split_tiles"
+  "numrecs_counterexample", "numrecs_partial", "numrecs_fixed", "record_split", "record_split_tiles",
+  "varsFlatten_offsets", "varsFlatten_segs", "bufBlocks_cover"
 ]
 end PnVerif.Props.C02
